@@ -107,7 +107,7 @@ fn run<T: Sc>(case: &TrajCase) -> Check {
         out.class(c);
     }
     out.class(case.base.weight_class());
-    out.class(format!("S={}", case.base.s()));
+    out.class(crate::gen::s_label(case.base.s()));
     out.class(match case.base.eps {
         None => "eps:default",
         Some(e) if e == 0.0 => "eps:zero",
